@@ -90,10 +90,6 @@ pub open spec fn in_errs(v: Seq<ModuleGraphError>, e: ModuleGraphError) -> bool 
 }
 
 /// a chain of `next()` calls on the wrapped walk
-pub open spec fn is_chain(sts: Seq<ModuleEntryIterator>, rss: Seq<Option<(&Url, ModuleEntryRef)>>) -> bool {
-    &&& sts.len() == rss.len() + 1
-    &&& forall|i: int| 0 <= i < rss.len() ==> next_rel(#[trigger] sts[i], sts[i + 1], rss[i]) && wf(sts[i + 1])
-}
 pub open spec fn chain_failure(g: ModuleGraph, o: WOpts, rss: Seq<Option<(&Url, ModuleEntryRef)>>, n: int, e: ModuleGraphError) -> bool {
     exists|i: int| 0 <= i < n && i < rss.len() && (#[trigger] rss[i]) is Some && entry_failure(g, o, entry_val(rss[i].unwrap().1), e)
 }
@@ -334,17 +330,6 @@ pub proof fn lemma_in_errs_pop(v: Seq<ModuleGraphError>)
     assert(v =~= v.drop_last().push(v.last()));
     lemma_in_errs_push(v.drop_last(), v.last());
 }
-pub proof fn lemma_chain_push(sts: Seq<ModuleEntryIterator>, rss: Seq<Option<(&Url, ModuleEntryRef)>>, nxt: ModuleEntryIterator, r: Option<(&Url, ModuleEntryRef)>)
-    requires is_chain(sts, rss), next_rel(sts.last(), nxt, r), wf(nxt),
-    ensures is_chain(sts.push(nxt), rss.push(r)), sts.push(nxt).last() == nxt, sts.push(nxt)[0] == sts[0],
-{
-    let s2 = sts.push(nxt);
-    let r2 = rss.push(r);
-    assert forall|i: int| 0 <= i < r2.len() implies next_rel(#[trigger] s2[i], s2[i + 1], r2[i]) && wf(s2[i + 1]) by {
-        if i < rss.len() { assert(s2[i] == sts[i] && s2[i + 1] == sts[i + 1] && r2[i] == rss[i]); }
-        else { assert(s2[i] == sts.last() && s2[i + 1] == nxt && r2[i] == r); }
-    }
-}
 pub proof fn lemma_chain_failure_push(g: ModuleGraph, o: WOpts, rss: Seq<Option<(&Url, ModuleEntryRef)>>, r: Option<(&Url, ModuleEntryRef)>)
     ensures forall|e: ModuleGraphError| chain_failure(g, o, rss.push(r), rss.len() as int + 1, e)
         <==> (chain_failure(g, o, rss, rss.len() as int, e) || (r is Some && entry_failure(g, o, entry_val(r.unwrap().1), e))),
@@ -369,11 +354,6 @@ pub proof fn lemma_chain_failure_push(g: ModuleGraph, o: WOpts, rss: Seq<Option<
 }
 } // verus!
 verus! {
-pub proof fn lemma_next_rel_config(a: ModuleEntryIterator, b: ModuleEntryIterator, r: Option<(&Url, ModuleEntryRef)>)
-    requires next_rel(a, b, r),
-    ensures same_config(a, b), *b.graph == *a.graph, opts_of(b) == opts_of(a),
-{
-}
 } // verus!
 // ---- C02 over the contracts: validation succeeds iff no failure is attached to a reachable entry
 verus! {
